@@ -200,6 +200,156 @@ def suite_ws(report, tier, seed, prop="C13"):
     report.obligation("mon:ws", "monitor", mon_ok, "bytes delivered = concatenation of binary/text payloads, each read 1..buffer bytes, nothing lost once all frames arrived")
 
 
+def gen_ws_aread_case(rng):
+    """the tokio client's adapter: binary messages of any size - none at all included -, text, ping, a close message or a
+    failure (malformed frame / end of the socket) at the end"""
+    frames, payloads = [], []
+    n = rng.choice([1, 2, 3, 5, 8])
+    for i in range(n):
+        r = rng.random()
+        size = rng.choice([0, 0, 1, 2, 5, 17, 125, 126, 127, 300, 4095, 4096, 4097, 9000]) if rng.chance(0.9) else rng.choice([65535, 65536, 70000])
+        if r < 0.12:
+            frames.append("p" + (hexs(bytes(rng.randint(0, 255) for _ in range(rng.choice([0, 3])))) if rng.chance(0.5) else ""))
+        elif r < 0.22:
+            frames.append("t" + hexs(bytes(rng.choice(b"abcxyz019/") for _ in range(min(size, 300)))))
+        else:
+            p = bytes((i * 37 + j) & 0xFF for j in range(size))
+            frames.append("b" + hexs(p))
+            payloads.append(p)
+    end = rng.random()
+    if end < 0.2:
+        frames.append("c")
+    elif end < 0.3:
+        frames.append("xx8300")
+    elif end < 0.4:
+        frames.append("e")
+    total = sum(len(p) for p in payloads)
+    calls = []
+    bufs = rng.choice([[4096], [4096], [1, 2, 3], [7, 64], [1], [4096, 100], [3, 4096, 1]])
+    for i in range(rng.choice([4, 8, 16])):
+        calls.append(f"{rng.choice(bufs)}@{rng.choice([0, 0, 1, 2, 3, 7, 130, 4100, 10 ** 6])}")
+    calls.append("4096@100000000")
+    for i in range(total // 4096 + len(frames) + 3):
+        calls.append("4096@0")
+    return f"ws.aread frames={','.join(frames)} calls={','.join(calls)}", payloads
+
+
+def suite_ws_aread(report, tier, seed, prop="C13"):
+    """the byte stream the tokio client reads over a websocket (`TokioWsStream`, the type the client is built on) vs the model
+    (`awsRead`), and judged on its own: bytes = concatenation of the binary payloads, a zero-byte read (end of stream to the
+    client's loop) only once the server's close message or the end of the socket has been reached"""
+    rng = Rng(seed, "ws-aread")
+    n = 150 if tier == "quick" else 6000
+    cases = [("ws.aread frames=bx2002,b,bx3000 calls=16@100,16@0,16@0,16@0", [bytes([0x20, 2]), b"", bytes([0x30, 0])]),
+             ("ws.aread frames=b,b,bx01,c calls=4@100,4@0,4@0", [b"", b"", bytes([1])])] + [gen_ws_aread_case(rng) for _ in range(n)]
+    reqs = [c[0] for c in cases]
+    impl = harness_batch(reqs)
+    model = driver_batch(reqs)
+    corr_ok, mon_ok = True, True
+    for (req, payloads), a, b in zip(cases, impl, model):
+        report.case(req)
+        report.traces_validated += 1
+        fa, _ = resp_fields(a)
+        fb, _ = resp_fields(b)
+        ra, rb = fa.get("reads", "").split(","), fb.get("reads", "").split(",")
+        # after the first failure the message stream has ended for good; how later polls fare is tungstenite's business
+        cut = next((i + 1 for i, x in enumerate(ra) if x == "err"), len(ra))
+        if fa.get("res") != fb.get("res") or ra[:cut] != rb[:cut]:
+            corr_ok = False
+            report.add_finding(Finding(prop, "corr:ws-aread", {"clause": "model-vs-impl", "verb": "ws.aread"}, "tokio websocket read adapter: implementation and model disagree",
+                                       [req, "# impl:  " + a[:400], "# model: " + b[:400]], has_input=False))
+        if fa.get("res") != "ok":
+            mon_ok = False
+            report.add_finding(Finding(prop, "mon:ws-aread", {"clause": "panic" if "panic" in fa.get("res", "") else "failed"}, "tokio websocket read adapter failed: " + a[:120], [req]))
+            continue
+        specs = [x for x in req.split("frames=")[1].split(" ")[0].split(",") if x]
+        ends = specs and specs[-1][0] in "cxe"
+        want = b"".join(payloads)
+        got, bad = b"", None
+        calls = req.split("calls=")[1].split(",")
+        for call, r in zip(calls, ra[:cut]):
+            buf = int(call.split("@")[0])
+            if r.startswith("ok:"):
+                chunk = unhex(r[3:])
+                if not (1 <= len(chunk) <= buf):
+                    bad = ("read-size", f"a read into a {buf}-byte buffer returned {len(chunk)} bytes")
+                got += chunk
+            elif r == "pending":
+                report.count("ws-aread.pending")
+            elif r == "eof":
+                report.count("ws-aread.eof")
+                if not ends or got != want:
+                    bad = ("end-of-stream-invented", f"a read completed with zero bytes - the end of the stream to the client's loop - after {len(got)} of {len(want)} payload bytes, "
+                                                     + ("before the server's close message / the end of the socket had been reached" if ends else "although the server neither closed nor failed"))
+            elif r == "err":
+                report.count("ws-aread.err")
+                if not ends or specs[-1][0] == "c":
+                    bad = ("read-error", "a read failed although the socket did not")
+                elif got != want:
+                    bad = ("bytes-lost-to-failure", f"the failure was reported after {len(got)} payload bytes although {len(want)} had arrived before it")
+            else:
+                bad = ("read-error", f"a read returned {r[:40]}")
+            if bad:
+                break
+        if bad is None and got != want[:len(got)]:
+            bad = ("stream-corrupted", "the bytes handed to the engine differ from the concatenated binary payloads")
+        if bad is None and got != want:
+            bad = ("stream-truncated", f"{len(want) - len(got)} payload bytes were never delivered although every frame arrived and reads continued")
+        if bad:
+            mon_ok = False
+            report.add_finding(Finding(prop, "mon:ws-aread", {"clause": bad[0]}, bad[1], [req, "# impl: " + a[:300]]))
+        report.count("ws-aread.frames", len(specs))
+        report.count("ws-aread.empty-binary", sum(1 for x in specs if x == "b"))
+    report.obligation("corr:ws-aread", "correspondence", corr_ok, f"{len(reqs)} scripted websocket sessions through the tokio client's TokioWsStream (client role, server frames, one poll_read per call)")
+    report.obligation("mon:ws-aread", "monitor", mon_ok, "bytes delivered = concatenation of the binary payloads (empty ones included), each read 1..buffer bytes, a zero-byte read only at the server's close / the end of the socket")
+
+
+def suite_ws_request(report, prop="C11"):
+    """the websocket upgrade request built from the configured endpoint, before the transport is even opened: an endpoint the
+    builders accept must give a request or an error that fails the attempt - never a panic inside the client's task"""
+    eps = [b"localhost", b"localhost:1883", b"127.0.0.1", b"127.0.0.1:80", b"[::1]", b"[::1]:443", b"example.com", b"a.b-c.example:65535",
+           b"::1", b"fe80::1%eth0", b"local host", b"", b" ", b"a/b", b"a?b", b"a#b", b"user@host", b"user:pw@host:1", b"host:", b"host:port", b":80",
+           b"[::1", b"::1]", b"[]", b"a\tb", b"a%20b", b"%", "h\u00f6st".encode(), "\u2603".encode(), b"x" * 300, b"a..b", b"-", b"_", b"a\\b", b"a\"b", b"<>", b"{}", b"|", b"^", b"`"]
+    reqs = [f"cfg.wsrequest endpoint={hexs(e)}" for e in eps]
+    impl = harness_batch(reqs)
+    # the model is given what the URI parser said (uriok, host)
+    mreqs = []
+    for a in impl:
+        fa, _ = resp_fields(a)
+        mreqs.append(f"cfg.wsrequest uriok={fa.get('uriok', '0')} host={fa.get('host', '-')}")
+    model = driver_batch(mreqs)
+    corr_ok, mon_ok = True, True
+    import re
+    plain = re.compile(rb"^[A-Za-z0-9]([A-Za-z0-9.-]*[A-Za-z0-9])?(:[0-9]{1,5})?$")
+    for e, req, a, b in zip(eps, reqs, impl, model):
+        report.case(req)
+        report.traces_validated += 1
+        fa, _ = resp_fields(a)
+        fb, _ = resp_fields(b)
+        report.count("ws-request." + fa.get("res", "?").split(":")[0])
+        if fa.get("res", "").startswith("panic"):
+            mon_ok = False
+            report.add_finding(Finding(prop, "mon:ws-request", {"clause": "panic", "verb": "cfg.wsrequest"},
+                                       f"building the websocket upgrade request for the endpoint {e!r} panics (inside the client's own task: the event loop dies with it): " + a[:160], [req, "# impl: " + a[:200]]))
+            corr_ok = False
+            report.add_finding(Finding(prop, "corr:ws-request", {"clause": "model-vs-impl", "verb": "cfg.wsrequest"}, "upgrade request: the implementation panics where the model reports an error",
+                                       [req, "# impl:  " + a[:200], "# model: " + b[:200]], has_input=False))
+            continue
+        if (fa.get("res"), fa.get("hosthdr")) != (fb.get("res"), fb.get("hosthdr")):
+            corr_ok = False
+            report.add_finding(Finding(prop, "corr:ws-request", {"clause": "model-vs-impl", "verb": "cfg.wsrequest"}, "upgrade request: implementation and model disagree",
+                                       [req, "# impl:  " + a[:200], "# model: " + b[:200]], has_input=False))
+        # independent: a plain host name / IPv4 address with an optional port must give a request whose Host header is that host
+        if plain.match(e):
+            host = e.split(b":")[0]
+            if fa.get("res") != "ok" or fa.get("hosthdr") != hexs(host):
+                mon_ok = False
+                report.add_finding(Finding(prop, "mon:ws-request", {"clause": "plain-endpoint-refused", "verb": "cfg.wsrequest"},
+                                           f"the endpoint {e!r} is a plain host[:port]; expected a request with Host {host!r}, got {a[:120]}", [req, "# impl: " + a[:200]]))
+    report.obligation("corr:ws-request", "correspondence", corr_ok, f"{len(reqs)} endpoint strings (host names, IPv4/IPv6 literals with and without brackets, spaces, delimiters, non-ASCII, empty)")
+    report.obligation("mon:ws-request", "monitor", mon_ok, "a request or an error, never a panic; plain host[:port] endpoints give a request with that Host header")
+
+
 # ------------------------------------------------------------------------------------------------
 
 def op_text(kind, a, tag, size):
@@ -568,6 +718,12 @@ def suite_real_lifecycle(report, tier, seed, prop="C12"):
                ("drv.run kind=tokio v=5 fplan=w answer=0 ctimeout=200 backoff=50 | start;sleep:700;stop;sleep:400;mark:settled;sleep:150", "tokio", "flush-stall"),
                ("drv.run kind=tokio v=5 shutdown=stall answer=0 ctimeout=200 backoff=50 | start;sleep:700;stop;sleep:400;mark:settled;sleep:150", "tokio", "shutdown-stall"),
                ("drv.run kind=threaded v=5 fplan=w answer=0 ctimeout=200 backoff=50 | start;sleep:700;stop;sleep:400;mark:settled;sleep:150", "threaded", "flush-stall")]
+    # configuration values the builders accept: an endpoint string that is no URI authority (a bare IPv6 literal - fine for
+    # the direct transport -, a space, nothing at all) given to a websocket client.  Nothing listens on port 1: every attempt
+    # can only fail, and must do so as a reported failure, with the loop alive and a stop still stopping.
+    for kind in ("tokio-ws", "threaded-ws"):
+        for ep in (b"::1", b"local host", b"", b"127.0.0.1", b"[::1]", b"a/b?c#d", "h\u00f6st".encode()):
+            corpus.append((f"drv.run kind={kind} v=5 endpoint=x{ep.hex()} ctimeout=300 backoff=50 maxbackoff=100 | start;sleep:500;stop;sleep:400;mark:settled;sleep:150", kind, "ws-endpoint"))
     cases = corpus + cases
     impl = harness_batch_parallel([c[0] for c in cases])
     mon_ok = True
@@ -585,6 +741,10 @@ def suite_real_lifecycle(report, tier, seed, prop="C12"):
             if not e.startswith("|"):
                 report.count("real-lifecycle.event." + e.split(".")[0])
         verdict = lifecycle_verdict(events)
+        # a start / stop request refused because nobody receives it any more, although close() was never called: the loop died
+        dead = [x for x in fa.get("sync", "").split(",") if x.startswith(("start:", "stop:")) and "OperationChannelFailure" in x]
+        if not verdict and dead and "|close|" not in events:
+            verdict = ("event-loop-dead", f"the client's event loop is gone ({dead[0]}) although the client was never closed")
         if not verdict and transport == "close-terminal" and "|close|" in events:
             # the requests arrived while the loop was asleep: a client that honours the close makes no attempt after it
             after = [e for e in events[events.index("|close|") + 1:] if e in ("Attempt", "Success")]
